@@ -11,7 +11,8 @@ import vlib
 
 LEVEL_TEXT = ('Lean 4 theorems (Mathlib matrices), for every basis matrix B with invertible BᵀB, i.e. every mask, mode subset, ordering, '
               'normalisation and caller coordinates on which the modes are linearly independent: fit(compose c) = c; fit(remove opd) = 0; '
-              'remove is idempotent; remove(compose c) = 0; the residual is orthogonal to the removed modes (normal equations).')
+              'remove is idempotent; remove(compose c) = 0; the residual is orthogonal to the removed modes (normal equations) and no other '
+              'coefficient vector leaves a smaller sum of squares (least squares, over any linearly ordered field).')
 LEVEL_NOTE = ('Trusted: Lean kernel and Mathlib; np.linalg.pinv(basis) = (BᵀB)⁻¹Bᵀ for full column rank (contract, checked numerically on every '
               'case through the normal equations); the basis matrix is the C11 mode model (compared on every case); float rounding only through the '
               '1e-9 tolerance; generator coverage.')
